@@ -168,6 +168,49 @@ def exc_outcome(ex):
 FINALISERS = ('finalise', 'seek0', 'close')
 
 
+class Baton:
+    """Two harness threads in strict alternation: exactly one of them runs, and the turn changes hands at every yield
+    point (between two operations of a driver, around every file transfer).  A deterministic schedule for "two objects
+    alive at the same time and used alternately" - what a caller does who copies one file to two outputs, merges two
+    inputs, or consumes two readers with zip()."""
+
+    def __init__(self):
+        import threading
+        self.cv = threading.Condition()
+        self.turn = 0
+        self.alive = {0, 1}
+
+    def begin(self, me):
+        with self.cv:
+            self.cv.wait_for(lambda: self.turn == me or (1 - me) not in self.alive)
+
+    def hand_over(self, me):
+        with self.cv:
+            if (1 - me) in self.alive:
+                self.turn = 1 - me
+                self.cv.notify_all()
+                self.cv.wait_for(lambda: self.turn == me or (1 - me) not in self.alive)
+
+    def done(self, me):
+        with self.cv:
+            self.alive.discard(me)
+            self.turn = 1 - me
+            self.cv.notify_all()
+
+
+_TL = __import__('threading').local()
+
+
+def yield_point():
+    """between two operations of a history / around a file transfer: other threads may run here (threads dimension); in
+    lock-step mode the turn goes to the partner thread."""
+    b = getattr(_TL, 'baton', None)
+    if b is not None:
+        b[0].hand_over(b[1])
+    elif THREADED:
+        time.sleep(0)
+
+
 class YieldingIO(io.BytesIO):
     """A file object implemented in Python that lets other threads run around every transfer - what a device, a pipe, a
     compressing wrapper or a network file does by blocking.  Used for every file when several harness threads drive the
@@ -175,16 +218,16 @@ class YieldingIO(io.BytesIO):
 
     def read(self, *a):
         r = super().read(*a)
-        time.sleep(0)
+        yield_point()
         return r
 
     def readinto(self, b):
         n = super().readinto(b)
-        time.sleep(0)
+        yield_point()
         return n
 
     def write(self, b):
-        time.sleep(0)
+        yield_point()
         return super().write(b)
 
 
@@ -285,6 +328,7 @@ def _run_blocker_on(f, chunks, finaliser, hazards, pipe):
             b.write(memoryview(buf)[:len(c)])
             buf[:len(c)] = bytes(len(c))          # ... and overwrites it straight afterwards
         else:
+            yield_point()
             b.write(c)
         if hazards and i % 4 == 2:
             try:
@@ -340,17 +384,32 @@ def run_unblocker(blocked, sizes):
         else:
             f = new_file(blocked)
         try:
-            u = mciipm.Unblock1014(f)
+            # a site subclass that translates what it hands out (EBCDIC-to-ASCII style; here an involution, undone below):
+            # what the base class returns to it must be the payload stream itself, for sized and unsized reads alike
+            sub = pick(4, 'usub', len(blocked), sizes[:8]) == 2
+            u = _TranslatingUnblocker(f) if sub else mciipm.Unblock1014(f)
             if (len(blocked) + len(sizes)) % 3 == 1 and kind == 0:
                 f.seek(0)                # the caller positions the file after wrapping it: nothing has been read yet
             outs = []
             for n in sizes:
+                yield_point()
                 outs.append(u.read() if n == 0 else u.read(n))
+            if sub:
+                outs = [o.translate(_FLIP) if isinstance(o, (bytes, bytearray)) else o for o in outs]
         finally:
             if gz:
                 f.close()
                 os.unlink(gz)
     return outs
+
+
+_FLIP = bytes(255 - i for i in range(256))
+
+
+class _TranslatingUnblocker(mciipm.Unblock1014):
+    def read(self, *size):
+        data = super().read(*size)
+        return data.translate(_FLIP) if isinstance(data, (bytes, bytearray)) else data
 
 
 def run_oneshot_unblock(blocked):
@@ -461,6 +520,7 @@ def _vbs_write_history(f, recs, blocked, fins, api, peek, events, pipe):
             buf[:] = b'\xee' * len(buf)
         w.write_many(recs[:k] if len(recs) % 2 else reused(recs[:k]))
         for r in recs[k:k + 1]:
+            yield_point()
             w.write(r)
         w.write_many(iter(recs[k + 1:]) if len(recs) % 3 else reused(recs[k + 1:]))
         w.close()
@@ -475,6 +535,7 @@ def _vbs_write_history(f, recs, blocked, fins, api, peek, events, pipe):
         w = mciipm.VbsWriter(f, blocked)            # the flag passed by position
         captured = w.close                          # a bound method taken before anything was finalised (atexit / ExitStack style)
         for r in recs:
+            yield_point()
             w.write(r)
         for i, x in enumerate(fins):
             if x == 'exit':
@@ -507,6 +568,7 @@ def _vbs_write_history(f, recs, blocked, fins, api, peek, events, pipe):
         try:
             with mciipm.VbsWriter(f, blocked=blocked) as w:
                 for r in recs:
+                    yield_point()
                     w.write(r)
                 for _ in fins[:k]:
                     w.close()
@@ -526,6 +588,7 @@ def _vbs_write_history(f, recs, blocked, fins, api, peek, events, pipe):
                 w.write(buf)
                 buf[:] = b'\xee' * len(buf)
             else:
+                yield_point()
                 w.write(r)
         after = fins
     for x in after:
@@ -611,6 +674,7 @@ def _read_events_on(data, blocked, make_reader, limit, project, fileobj, plain):
     def one_next():
         try:
             with Watchdog(5.0):
+                yield_point()
                 rec = next(rd)
         except StopIteration:
             events.append(ev('next', 0, 'stop'))
